@@ -370,10 +370,22 @@ func (c *Cluster) execStep(st Step) {
 				if simrt.Dead() {
 					return
 				}
+				var err error
 				if useStart {
-					_ = inc.Raft.Start()
+					err = inc.Raft.Start()
 				} else {
-					_ = inc.Raft.Restart()
+					err = inc.Raft.Restart()
+				}
+				if simrt.Dead() {
+					return
+				}
+				if err != nil && n.Inc == inc {
+					// The node object is unusable (still shut down): an application would exit
+					// and be started again. Judged like a failed start over the directory
+					// (not a finding if an injected disk error caused it), then the process dies.
+					c.Rec.startFailed(inc, fmt.Errorf("Restart on the stopped node: %w", err))
+					c.Stats.RestartFailures++
+					c.crashNode(n, "restart-error")
 				}
 			})
 		}
